@@ -1,6 +1,6 @@
 (* ESSelect.v — executable model (M10) of the selection bookkeeping of the search step:
      (a) ESSearch._get_selection_idx_mask_            (pybads/search/es_search.py l.44-69)
-     (b) the candidate accumulation / ranking loop of ESSearch.__call__ (l.134-214)
+     (b) the candidate accumulation / ranking loop of ESSearch.__call__ (l.134-215)
      (c) the argmin + single evaluation of BADS._search_step_ (pybads/bads/bads.py l.1630-1655)
      (d) the hedge probabilities and the choice of ESSearchHedge.__call__ (search_hedge.py l.58-67)
    Floats are exact rationals.  Oracle inputs (never recomputed here): the weight vector [w0] after
@@ -141,10 +141,10 @@ Definition parents {A} (us : list A) (mask : list Z) (lamb : nat) : option (list
 
 (* ------------------------------------------------------------------ (b) ES accumulation *)
 
-(* An acquisition value: a number or NaN (None).  NaN values occur in the code as it is: after a
-   generation without survivors the step-size update `frac = n_new / ntest` (l.190) divides by
-   ntest = 0, self.scale becomes NaN and the following populations consist of NaN rows, which pass
-   the filter and get the acquisition value NaN. *)
+(* An acquisition value: a number or NaN (None).  The loop never inspects the values except through
+   np.argsort, which ranks NaN after every number; a NaN value (an acquisition function failing on a
+   candidate) is therefore an input like any other.  The correspondence injects NaN values from
+   outside on some runs. *)
 Definition zv := option Q.
 
 (* the order np.argsort uses on floats: numbers by value, NaN after every number *)
@@ -204,7 +204,8 @@ Section ES.
 
   Definition es_init : es_state := mkES [] [] [] [].
 
-  (* one pass of the loop body l.134-188 given the filtered generation with its acquisition values *)
+  (* one pass of the loop body l.134-188 (selection; the step-size update l.190-197 and the reproduction l.199-208
+     only shape the NEXT population, an oracle input) given the filtered generation with its acquisition values *)
   Definition es_step (first : bool) (lamb : nat) (st : es_state) (new : list (row * zv)) : es_state :=
     let u_new := map fst new in
     let z_new := map snd new in   (* when empty, l.166 redraws it with u_new.shape[0] = 0 entries: still empty *)
@@ -220,7 +221,7 @@ Section ES.
     | g :: r => es_loop false lamb (es_step first lamb st g) r
     end.
 
-  (* l.210-214 (after repo commit 692d1d7):
+  (* l.211-215 (after repo commit 692d1d7):
          if us.shape[0] == 0: return us, z        -- the empty search set: a failed search
          return us[0], z[0]
      ESStuck models an IndexError on z[0]; Proofs/ESSelectProofs.v (es_never_stuck) shows it unreachable.
